@@ -140,6 +140,8 @@ def res_code(res, call, extra):
         return ["{ const char *zz_r = %s; obs_z(zz_r); }" % call]
     if isinstance(res, A.PtrRes):
         return ["{ %s *zz_r = %s; %s }" % (res.t.cname, call, obs_scalar(res.t, "*zz_r"))]
+    if isinstance(res, A.ArrRes2):
+        return ["{ %s *zz_r = %s; obs_i(%d); obs_i(2); %s }" % (res.t.cname, call, extra, obs_arr(res.t, "zz_r", 2 * extra))]
     if isinstance(res, A.ArrRes):
         return ["{ %s *zz_r = %s; %s }" % (res.t.cname, call, obs_arr(res.t, "zz_r", extra))]
     if isinstance(res, A.EnumRes):
